@@ -383,6 +383,11 @@ def judge_transient(case, ctx, prefix):
     o1 = C12.run_transient(c1, ctx, prefix + '/transient/original')
     if o1 is None:
         return
+    # two float simulations of a system whose time constants are more than six decades apart, or whose DC construction matrix is
+    # ill-conditioned, differ by more than rounding whatever the library does (same policy as C12 / C10)
+    if o1['stiffness'] > 1e6 or not dynamics.construction_kappa(cd1) <= 1e8:
+        ctx.count('set_aside_stiff_or_ill_conditioned_transient')
+        return
     # same grid for both runs: force h of the original
     import vmon.props.C12 as c12
     h = o1['h']
